@@ -891,6 +891,8 @@ class Parser(object):
                     next(self.stream)
                 elif token.type == 'variable_begin':
                     next(self.stream)
+                    if self.stream.current.type == 'sub' and marker_start(token, (self.environment.variable_start_string,)) is not None:
+                        self.fail("a '-' cannot directly follow the auto-indent marker (write {{* (-x) }} for a negative value)", token.lineno)
                     rv = self.parse_tuple(with_condexpr=True)
                     # auto-indented multi-line variable using {{* ... }}
                     start = marker_start(token, (self.environment.variable_start_string,))
